@@ -63,7 +63,7 @@ def main():
             print("REJECT %s-%s: patch does not apply: %s" % (pid, mid, a.stderr[-300:]))
             return 2
         if not args.check_only:
-            t = run([os.path.join(VERIF, "tools", "baseline.sh"), clone])
+            t = run([os.path.join(VERIF, "tools", "baseline.sh"), clone], env=dict(os.environ, TEST_TIMEOUT="60"))
             last = t.stdout.strip().splitlines()[-1] if t.stdout.strip() else ""
             ran.append("pinned test suite with the change: %s" % last)
             if " passed" not in last or "failed" in last or "error" in last:
